@@ -25,6 +25,8 @@ ASSUMPTIONS = [
     "block statements used are set / if true / for over one item / with, so every text piece is rendered exactly once",
     "'+' is only generated where documented (both sides of block and comment tags, left of raw, both sides of endraw)",
     "comment bodies are non-empty and do not begin/end with '+' or '-' (that spelling is ambiguous with a modifier)",
+    "lstrip_blocks before a tag that is preceded on its line by whitespace other than spaces/tabs (docs: 'tabs and spaces', statement: "
+    "'whitespace') is not judged: that configuration of the case is skipped and counted under the label lstrip:ambiguous-ws",
     "environments are reused across cases inside a worker (configuration objects only; every case compiles its own templates)",
 ]
 
@@ -65,6 +67,8 @@ def check_case(case):
         except ws.Decline:
             raise core.Discard()
         effects |= a.effects
+        if a.ambiguous:  # documentation does not decide this configuration (see vt.ref.ws); counted, not judged
+            continue
         for nls in ws.NL_SEQS:
             exp = a.rendered(nls)
             got = get_env(syn_name, ls, lc, trim, lstrip, nls, ktn).from_string(src).render(skel.CONTEXT)
@@ -113,7 +117,7 @@ def shards(tier):
 
 def run_shard(spec, ctx):
     n = ctx.pick(2400, 36000)
-    return core.hyp_shard(strategy(spec["syn"], spec["ls"], spec["lc"], ctx.pick(8, 10)), check_case, ctx, n)
+    return skel.hyp_chunks(strategy(spec["syn"], spec["ls"], spec["lc"], ctx.pick(8, 10)), check_case, ctx, n, core.Rec(), "sk")
 
 
 def floors(total, tier):
